@@ -11,6 +11,7 @@ CONSTANTS
   EraseKeepsBug = FALSE
   PushFrontRetBug = FALSE
   ReleaseNoClear = FALSE
+  MoveAssignInPlaceBug = FALSE
 VIEW IView
 INVARIANTS ParentConsistent RootsHaveNoParent NoDangling Refines ReturnsAgree
 CONSTRAINT EmitIScripts
